@@ -498,6 +498,14 @@ fn gen_value_for(rng: &mut Rng, p: &ValParser) -> String {
         ValParser::Boolish => (*rng.pick(&["yes", "no", "on", "off", "1", "0", "true", "false"])).to_string(),
         ValParser::Possible(pvs) => rng.pick(pvs).name.clone(),
         ValParser::Reject(_) => "okval".to_string(),
+        ValParser::Edge(k) => {
+            let (_, lo, hi) = edge_language(*k);
+            if lo > hi {
+                "0".to_string()
+            } else {
+                (*rng.pick(&[lo, hi])).to_string()
+            }
+        }
         _ => (*rng.pick(&["v1", "v2", "val", "x", "foo.txt", "a,b"])).to_string(),
     }
 }
@@ -516,7 +524,10 @@ fn gen_parser(rng: &mut Rng, cfg: &GenCfg, sw: &Swarm, n: usize) -> ValParser {
             ValParser::I64 { lo, hi }
         }
         2 => {
-            if rng.coin() {
+            if rng.chance(1, 6) {
+                // bounds on the extremes of the 64-bit types, exclusive and empty ranges
+                ValParser::Edge(rng.below(10) as u8)
+            } else if rng.coin() {
                 ValParser::U16
             } else {
                 let w = *rng.pick(&[IntW::I8, IntW::I16, IntW::I32, IntW::U8, IntW::U32, IntW::U64]);
@@ -596,6 +607,9 @@ fn gen_args(rng: &mut Rng, cfg: &GenCfg, sw: &Swarm, names: &mut Names, c: &mut 
             }
         };
         let mut a = ArgSpec::new(&format!("a{n:03}"), action);
+        if action == Action::Count && sw.typed && rng.chance(1, 3) {
+            a.parser = ValParser::Int { w: IntW::U8, range: Some((0, *rng.pick(&[1i64, 2, 3, 5]))) };
+        }
         if action == Action::Version && c.version.is_none() {
             // ArgAction::Version needs version information on this very command
             c.version = Some(format!("7.{}", rng.below(10)));
